@@ -14,6 +14,8 @@ import Flowjaxv.Driver.Train
 import Flowjaxv.Driver.Vectorize
 import Flowjaxv.Driver.TraceDrv
 import Flowjaxv.Driver.Losses
+import Flowjaxv.Driver.NetInverse
+import Flowjaxv.Driver.Planar
 /-!
 Model driver: `lake env lean --run Driver.lean < ops.txt`.  One op per line in, one line out
 (`ERR <msg>` when the model rejects the op).
@@ -80,11 +82,16 @@ def dispatch (line : String) : String :=
       | "elbo" => elbo args
       | "cidx" => cidx args
       | "contrastive" => contrastive args
+      | "mafbij" => mafbij args
+      | "couplingbij" => couplingbij args
+      | "bnafinv" => bnafinv args
       | "ctor" => ctor args
       | "permute" => permute args
       | "permvalid" => permvalid args
       | "flip" => flip args
       | "addcond" => addcond args
+      | "planar" => planar args
+      | "triaff" => triaff args
       | _ => .error s!"unknown op {op}"
     match r with
     | .ok s => s
